@@ -53,8 +53,19 @@ func SymTime(id string) time.Time {
 	vf.Assume(nsec < 1000000000)
 	vf.Assume(sec > -(1 << 55))
 	vf.Assume(sec < (1 << 55))
-	return time.Unix(sec, nsec)
+	t := time.Unix(sec, nsec)
+	// the same instant in three internal representations (location pointer):
+	// local, UTC, a fixed zone - values that are Equal but not ==
+	switch vf.Choice(id+".rep", 3) {
+	case 1:
+		t = t.UTC()
+	case 2:
+		t = t.In(symZone)
+	}
+	return t
 }
+
+var symZone = time.FixedZone("Z1", 3600)
 
 // Scalar builds a value of scalar type tag t with symbolic payload.
 func Scalar(id string, t int) tengo.Object {
